@@ -86,7 +86,13 @@ func GetExtendedSpatialIdsWithinRadiusOfLine(startPoint *object.Point, endPoint 
 
 	// Determine the number of layers around the spatialID to search.
 	// All SpatialIds are virtually the same size, so use the first to measure
-	hLayers, vLayers, error := FitClearanceAroundExtendedSpatialID(idsOnLine[0], radius)
+	// idsOnLine is an unordered set (its order changes from call to call), so measure with the voxel of
+	// the start point to make the result depend on the arguments only
+	startIDs, error := shape.GetExtendedSpatialIdsOnPoints([]*object.Point{startPoint}, hZoom, vZoom)
+	if error != nil {
+		return nil, error
+	}
+	hLayers, vLayers, error := FitClearanceAroundExtendedSpatialID(startIDs[0], radius)
 	if error != nil {
 		return nil, error
 	}
